@@ -2,6 +2,7 @@
 
 use mdk_storage_traits::groups::types::GroupState;
 use nostr::{EventBuilder, Kind};
+use proptest::prelude::*;
 
 use crate::on_mdk;
 use crate::oracles::ConfidentialityObserver;
@@ -22,6 +23,14 @@ pub fn exec(plan: &Plan, mode: Mode) -> Result<CaseReport, Failure> {
             let cl = &w.clients[m];
             if cl.mdk.is_none() {
                 continue;
+            }
+            // "processed its own removal" judged by the MLS state itself, not by the record the
+            // clause is about: once the removal has been merged there, the record must say so
+            if w.full(m).mls_active == Some(false) && w.group_state(m) == Some(GroupState::Active) {
+                return Err(Failure::new(
+                    "removed-client-not-inactive",
+                    format!("c{m}'s MLS state has merged its own removal (the group is no longer active there), yet the stored group record is still Active"),
+                ));
             }
             // a client that has processed its own removal: inactive, cannot send
             if cl.evicted_at.is_some() && cl.cur.is_none() {
@@ -102,7 +111,18 @@ pub fn main(args: &Args) -> i32 {
         args,
         spec,
         RunPlan { cases, workers: 16 },
-        || plan_strategy(&opts, &weights, len.clone()),
+        || {
+            // one history in ten starts with a directed prelude: the leaver's removal arrives in
+            // the same commit as an addition that re-populates its leaf
+            (plan_strategy(&opts, &weights, len.clone()), 0u8..10, any::<u8>())
+                .prop_map(|(mut p, roll, leaver)| {
+                    if roll == 0 {
+                        crate::plangen::leave_swept_into_add_prelude(&mut p, leaver);
+                    }
+                    p
+                })
+                .boxed()
+        },
         exec,
     )
 }
